@@ -240,11 +240,12 @@ def sharded(jobs, n):
     return [tuple(j) + (("shard", k, n),) for j in jobs for k in range(n)]
 
 
-def standard(harness, bound_of_tier, cap_of_tier=None):
-    """Build the run_job / replay pair every E1 check module exports."""
+def standard(harness, bound_of_tier, cap_of_tier=None, job_bound=None):
+    """Build the run_job / replay pair every E1 check module exports.
+    job_bound(job, tier): per-job deviation bound (default: bound_of_tier(tier) for every job)"""
     def run_job(job, tier, seed):
         cap = cap_of_tier(tier) if cap_of_tier else None
-        b = bound_of_tier(tier)
+        b = job_bound(job, tier) if job_bound else bound_of_tier(tier)
         if b is not None and isinstance(job, tuple) and "sweep" in job:
             b -= 1     # sweep jobs enumerate a full configuration grid (free choices) x one deviation less
         return explore_job(harness, job, bound=b, cap=cap, seed=seed)
